@@ -274,6 +274,15 @@ let hist_monitors tbl (ops : hop list) (impl_obs : string list) : string list =
   with Invalid_argument _ -> add "observation-count-mismatch");
   List.rev !fails
 
+(* elem = <items>^<extra keys>^<extra contents> *)
+let parse_elem (s : string) : item list * bytes list * bytes list * (int list * truth) list =
+  match String.split_on_char '^' s with
+  | [its; xk; xc] ->
+    let parsed = if its = "." then [] else List.map parse_item (String.split_on_char '+' its) in
+    let l x = if x = "." then [] else List.map unhx (String.split_on_char '+' x) in
+    (List.map fst parsed, l xk, l xc, List.map snd parsed)
+  | _ -> failwith ("elem " ^ s)
+
 let handle fields impl : string option * string list =
   match fields with
   | ["vc"; key; content; h; bd; r; s] ->
@@ -284,7 +293,8 @@ let handle fields impl : string option * string list =
     (* the panic message is informative only *)
     let ms = if m = Panic && starts impl "panic" then impl else show_res m in
     (Some ms, vc_monitors tbl src key content impl)
-  | ["orc"; hash; served; h] ->
+  | ["orcraw"; _; _] -> (Some "err", if starts impl "err" then [] else ["oracle-accepted-non-hex-answer " ^ impl])
+  | ["orc"; hash; served; h] | ["orcnet"; _; hash; served; h] ->
     let hash = unhx hash in
     let served' = if served = "n" then None else Some (unhx served) in
     let tbl = match served' with None -> [] | Some c -> [(ub c, parse_truth h "x" "x")] in
@@ -309,6 +319,109 @@ let handle fields impl : string option * string list =
     let m = "ok " ^ String.concat ";" (List.map show_obs obs) in
     let impl_obs = if starts impl "ok " then split_on ';' (String.sub impl 3 (String.length impl - 3)) else [] in
     (Some m, hist_monitors tbl ops impl_obs)
+  | ["gf"; t; hash; local; remote; verdict; gfail; pfail; tl; tr; s] ->
+    let t = int_of_string t and hash = unhx hash in
+    let opt x = if x = "n" then None else Some (unhx x) in
+    let local = opt local and remote = opt remote in
+    let tr3 x = match String.split_on_char '~' x with [h; bd; r] -> parse_truth h bd r | _ -> failwith "T" in
+    let tbl = (match local with Some c -> [(ub c, tr3 tl)] | None -> []) @ (match remote with Some c -> [(ub c, tr3 tr)] | None -> []) in
+    let src = let sh = parse_S s in fun _ -> sh in
+    let validate var = match verdict with
+      | "o" -> (fun _ _ -> Ok ()) | "e" -> (fun _ _ -> Err e_DECODE) | _ -> m_validate var tbl src in
+    let gf = gfail = "1" and pf = pfail = "1" in
+    let key = b (t :: ub hash) in
+    let s0 = match local with Some c -> [(key, c)] | None -> [] in
+    let lookup _ = remote in
+    let sel : byte = Obj.magic t in
+    let shown =
+      match t with
+      | 0 -> let ((r, _), p) = getter_g (validate variant) gf pf sel (header_of (dec_hwp tbl) (dec_header tbl)) lookup s0 hash in show_obs (ObsHeader (r, p))
+      | 1 -> let ((r, _), p) = getter_g (validate variant) gf pf sel (dec_body tbl) lookup s0 hash in show_obs (ObsBody (r, p))
+      | _ -> let ((r, _), p) = getter_g (validate variant) gf pf sel (dec_receipts tbl) lookup s0 hash in show_obs (ObsReceipts (r, p)) in
+    (* monitors: whatever the faults, nothing is returned or stored that the validator did not accept for this key
+       (with the real validator: that is not bound to the key); bytes injected into the local store are the
+       harness's own fault injection and are not judged *)
+    let fails = ref [] in
+    let add f = fails := f :: !fails in
+    (if starts impl "ok " then begin
+       let ob = String.sub impl 3 (String.length impl - 3) in
+       let i = String.rindex ob ',' in
+       let head = String.sub ob 0 i and puts = parse_puts (String.sub ob (i + 1) (String.length ob - i - 1)) in
+       let ret = String.sub head 1 (String.length head - 1) in
+       let accepted c = List.mem_assoc (ub c) tbl && validate repaired key c = Ok () in
+       let what = if verdict = "r" then "not-bound-to-its-key" else "the-validator-rejected" in
+       if head.[0] = 'p' then add ("getter-panics getter=" ^ string_of_int t);
+       if head.[0] = 'o' && gf then add ("getter-returned-despite-storage-read-failure getter=" ^ string_of_int t);
+       if head.[0] = 'o' && not gf && local = None then begin
+         (match remote with
+          | Some c when accepted c ->
+            if retid_of tbl t c <> Some ret then add ("getter-returned-other-than-looked-up getter=" ^ string_of_int t)
+          | _ -> add ((if verdict = "r" then "unvalidated-content-returned" else "getter-returned-content-the-validator-rejected") ^ " getter=" ^ string_of_int t ^ " key=" ^ hx key))
+       end;
+       (match local with
+        | Some c when head.[0] = 'o' && not gf && retid_of tbl t c <> Some ret -> add ("getter-returned-other-than-stored getter=" ^ string_of_int t)
+        | _ -> ());
+       List.iter (fun (k, c) ->
+         if not (k = key && Some c = remote && local = None && accepted c) then
+           add ("stored-content-" ^ what ^ " getter=" ^ string_of_int t ^ " key=" ^ hx k)) puts
+     end else add ("unparsable-observation " ^ impl));
+    (Some ("ok " ^ shown), List.rev !fails)
+  | ["of"; verdict; gfail; pfail; pre; elem] ->
+    let (items, xkeys, xcontents, tbl) = parse_elem elem in
+    let src = src_of_items items in
+    let validate var = match verdict with
+      | "o" -> (fun _ _ -> Ok ()) | "e" -> (fun _ _ -> Err e_DECODE) | _ -> m_validate var tbl src in
+    let keys = List.map (fun i -> i.ikey) items @ xkeys and contents = List.map (fun i -> i.icontent) items @ xcontents in
+    let s0 = List.rev (parse_puts pre) in
+    let ((r, _), p) = validate_contents_loop_g (validate variant) (gfail = "1") (pfail = "1") keys (Obj.magic Util.O) contents s0 [] in
+    let fails = ref [] in
+    let add f = fails := f :: !fails in
+    (if starts impl "ok " then begin
+       let ob = String.sub impl 3 (String.length impl - 3) in
+       let i = String.rindex ob ',' in
+       let head = String.sub ob 0 i and puts = parse_puts (String.sub ob (i + 1) (String.length ob - i - 1)) in
+       if head.[0] = 'p' && List.length keys >= List.length contents then add "validate-contents-panics of";
+       List.iter (fun (k, c) ->
+         let offered = List.exists (fun it -> it.ikey = k && it.icontent = c) items in
+         if not offered then add ("stored-content-not-bound-to-its-key of key=" ^ hx k)
+         else if validate repaired k c <> Ok () then
+           add ((if verdict = "r" then "unvalidated-content-stored" else "stored-content-the-validator-rejected") ^ " of key=" ^ hx k)) puts
+     end else add ("unparsable-observation " ^ impl));
+    (Some ("ok " ^ rc r ^ "," ^ show_puts p), List.rev !fails)
+  | ["loop"; elemsf] ->
+    (* the real processContentLoop: per element the Puts, and what the neighbour received through the loop's Gossip
+       call (the whole offered batch when validateContents returned nil and there is content; "?" = the harness did
+       not see it arrive in time - transport, tolerated) *)
+    let elems = List.map parse_elem (split_on ';' elemsf) in
+    let tbl = List.concat (List.map (fun (_, _, _, t) -> t) elems) in
+    let impl_obs = if starts impl "ok " then split_on ';' (String.sub impl 3 (String.length impl - 3)) else [] in
+    let store = ref [] in
+    let fails = ref [] in
+    let add f = fails := f :: !fails in
+    let shown = List.mapi (fun idx (items, xkeys, xcontents, _) ->
+      let src = src_of_items items in
+      let keys = List.map (fun i -> i.ikey) items @ xkeys and contents = List.map (fun i -> i.icontent) items @ xcontents in
+      let ((r, s'), p) = validate_contents_loop_g (m_validate variant tbl src) false false keys (Obj.magic Util.O) contents !store [] in
+      store := s';
+      let rec zip ks cs = match ks, cs with k :: ks', c :: cs' -> (k, c) :: zip ks' cs' | _ -> [] in
+      let gossip = match r, contents with Ok _, _ :: _ -> show_puts (zip keys contents) | _ -> "." in
+      let io = match List.nth_opt impl_obs idx with Some x -> x | None -> "" in
+      (* implementation side: every Put bound for its key *)
+      (match String.index_opt io ',' with
+       | Some i ->
+         let puts = parse_puts (String.sub io 0 i) in
+         List.iter (fun (k, c) ->
+           let offered = List.exists (fun it -> it.ikey = k && it.icontent = c) items in
+           if not (bound_for tbl src k c) then
+             add ((if offered then "unvalidated-content-stored" else "stored-content-not-bound-to-its-key") ^ " loop key=" ^ hx k)) puts
+       | None -> add "observation-count-mismatch");
+      let igossip = match String.index_opt io ',' with Some i -> String.sub io (i + 1) (String.length io - i - 1) | None -> "" in
+      show_puts p ^ "," ^ (if igossip = "?" && gossip <> "." then "?" else gossip)) elems in
+    (Some ("ok " ^ String.concat ";" shown), List.rev !fails)
+  | ["drop"; _] ->
+    (* the element arrives while all workers of the loop's pool are busy: the loop drops it (nothing validated,
+       stored or gossiped) *)
+    (Some "ok .,.", if impl <> "ok .,." then ["dropped-element-had-an-effect " ^ impl] else [])
   | _ -> (Some "driver: unknown line", [])
 
 let () = Util.run handle
